@@ -179,6 +179,16 @@ pub(crate) fn run(seed: u64, n: u64, out: &mut Out) {
                     }
                     (format!("PE_connect {}", p), Val::l(vec![Val::l(hs.iter().map(Val::n).collect())]), "relay-connected")
                 }
+                9 if !peer_ids.is_empty() && rng.chance(2, 3) => {
+                    // a peer closes the relay protocol (the light client closes idle relay sessions and re-opens them for the next
+                    // submission: same session, same peer id); whatever it was told stays told
+                    let p = *peer_ids.keys().min().unwrap();
+                    let pi = PeerIndex::new(p as usize);
+                    let r = drive(relay.disconnected(nc.context(), pi));
+                    if r.is_err() { problems.push(format!("[C10-handler-panic] RelayProtocol.disconnected panicked: {}", super::last_panic())); }
+                    let _ = nc.take_sent();
+                    (format!("PE_disconnect {}", p), Val::l(vec![]), "relay-disconnected")
+                }
                 _ => {
                     // GetRelayTransactions for a few known hashes and an unknown one
                     let mut ask: Vec<packed::Byte32> = (0..rng.range(0, 3)).filter_map(|_| if known.is_empty() { None } else { Some(known[rng.below(known.len() as u64) as usize].clone()) }).collect();
